@@ -37,7 +37,11 @@ def tie(ctx):
                 model.append(ok)
                 if not ok:
                     break
-        got = real["logged_ok"]
+        got = [g for g in real["logged_ok"] if g is not None]
+        if not case["c13"]["continue"]:
+            got = got[:len(model)]
+            if model and model[-1] is False:
+                got[-1] = False if real["raised"] else got[-1]      # reported by the exception
         if got[:len(model)] != model or (not case["c13"]["continue"] and real["raised"] != (False in model)):
             bad.append({"steps": case["c13"]["steps"], "continue": case["c13"]["continue"], "real": got, "model": model,
                         "raised": real["raised"]})
@@ -54,7 +58,7 @@ def gen(rng):
     bad_steps = []
     for t in range(T):
         if rng.random() < 0.2:
-            prof[t, :] *= 3e3           # infeasible step
+            prof[t, int(rng.integers(0, prof.shape[1]))] = 1e150     # a step no calculation can converge on (overflow)
             bad_steps.append(t)
     steps = [int(x) for x in rng.permutation(T)[:int(rng.integers(2, T + 1))]]
     s["c13"] = {"profile": (prof * np.array([e["mdot"] for e in s["sinks"]])).tolist(), "steps": steps,
@@ -93,8 +97,13 @@ def run_series(case):
         run_timeseries(net, time_steps=steps, continue_on_divergence=case["c13"]["continue"], verbose=False, **case["options"])
     except Exception as e:
         raised = True
-    p = ow.np_results["res_junction.p_bar"]
-    logged_ok = [bool(np.isfinite(p[i]).any()) for i in range(len(steps))]
+    # a diverged step is reported through the output writer's "powerflow_failed" parameter (its value rows stay at
+    # their initial zeros); steps never reached (series stopped) have no entry
+    par = ow.output["Parameters"]
+    logged_ok = []
+    for t in steps:
+        flag = par.at[t, "powerflow_failed"] if t in par.index else None
+        logged_ok.append(None if flag is None or (isinstance(flag, float) and np.isnan(flag)) else (not bool(flag)))
     return {"ow": ow, "net": net, "raised": raised, "logged_ok": logged_ok}
 
 
@@ -113,7 +122,8 @@ def oracle(case):
         logged_e = real["ow"].np_results["res_ext_grid.mdot_kg_per_s"][i]
         if ref is None:
             n_div += 1
-            if np.isfinite(logged_p).any():
+            # with continue_on_divergence the step must carry the failed flag; without it the series raises instead
+            if case["c13"]["continue"] and real["logged_ok"][i] is not False:
                 fails.append({"fingerprint": "C13:diverged-step-logged-as-result", "clause": "a diverged step is reported as such",
                               "detail": {"position": i, "time_step": t}})
             if not case["c13"]["continue"]:
@@ -121,6 +131,10 @@ def oracle(case):
                 if not real["raised"]:
                     fails.append({"fingerprint": "C13:divergence-not-raised", "clause": "diverged step stops the series",
                                   "detail": {"position": i, "time_step": t}})
+            continue
+        if real["logged_ok"][i] is not True:
+            fails.append({"fingerprint": "C13:converged-step-flagged-diverged", "clause": "a diverged step is reported as such",
+                          "detail": {"position": i, "time_step": t, "flag": real["logged_ok"][i]}})
             continue
         for name, lg, rf in (("p_bar", logged_p, ref.res_junction.p_bar.values), ("mdot", logged_m, ref.res_pipe.mdot_from_kg_per_s.values),
                              ("ext_grid", logged_e, ref.res_ext_grid.mdot_kg_per_s.values)):
